@@ -90,6 +90,35 @@ Theorem C31_later_request_independent :
 Proof. exact later_request_independent. Qed.
 Print Assumptions C31_later_request_independent.
 
+(* every kind of target: a regular file (also when named through a symbolic link - the os.* calls
+   follow links, the link itself is not a node of the model), a directory, a missing name (also a
+   dangling link, a name under a missing directory, a name removed since the handle was opened):
+   new state AND status of the request equal those of the os.* call *)
+Theorem C31_node_chmod : forall now n m, set_node_attr now n (req_chmod m) = os_chmod_node n m.
+Proof. exact node_chmod. Qed.
+Print Assumptions C31_node_chmod.
+Theorem C31_node_chown : forall now n u g, set_node_attr now n (req_chown u g) = os_chown_node n u g.
+Proof. exact node_chown. Qed.
+Print Assumptions C31_node_chown.
+Theorem C31_node_utime : forall now n t1 t2, set_node_attr now n (req_utime t1 t2) = os_utime_node n t1 t2.
+Proof. exact node_utime. Qed.
+Print Assumptions C31_node_utime.
+Theorem C31_node_truncate : forall now n k, set_node_attr now n (req_truncate k) = os_truncate_node now n k.
+Proof. exact node_truncate. Qed.
+Print Assumptions C31_node_truncate.
+
+(* success is only reported when every requested step was applied *)
+Theorem C31_ok_only_if_applied :
+  forall now n a n',
+  set_node_attr now n a = (n', SFTP_OK) ->
+  match n with
+  | NFile f => n' = NFile (set_file_attr now f a)
+  | NDir f => has a FLAG_SIZE = false /\ n' = NDir (step_utime a (step_chown a (step_chmod a f)))
+  | NMissing => any_step a = false
+  end.
+Proof. exact ok_only_if_applied. Qed.
+Print Assumptions C31_ok_only_if_applied.
+
 (* tie to the source: the flag bits and the list of steps (flag tested, call made, order, open mode
    of the resize) regenerated from paramiko's AST on this run are the ones modelled *)
 Theorem C31_source_steps : gen_steps = modelled_steps.
